@@ -34,8 +34,11 @@ for b in blocks:
         shutil.copy(f'{src}/patch{n}.diff', f'{dst}/patch.diff')
         shutil.copy(f'{src}/demo{n}.rs', f'{dst}/demo.rs')
         prev = None
+        prev_conf = None
         if retest and os.path.exists(f'{dst}/meta.json'):
-            prev = json.load(open(f'{dst}/meta.json')).get('checks_run')
+            pm = json.load(open(f'{dst}/meta.json'))
+            prev = pm.get('first_version_run') or pm.get('checks_run')
+            prev_conf = pm.get('confirmed_by_me')
         meta = {}
         try: meta = json.load(open(f'{src}/meta{n}.json'))
         except Exception as e: meta = {'note': 'agent meta unreadable: %s' % e}
@@ -43,10 +46,16 @@ for b in blocks:
         meta['confirmed_by_me'] = {
             'procedure': 'seedrun.sh: in the scratch worktree: git apply patch; cargo test --workspace --offline; demo as tests/seed_demo.rs fails with the patch and passes without it',
             'lines': confirm, 'all_confirmed': ok}
+        if retest and not confirm and prev_conf:
+            # a retest without re-confirmation keeps the confirmation recorded earlier
+            meta['confirmed_by_me'] = prev_conf
+            ok = prev_conf.get('all_confirmed', False)
         if retest:
             meta['first_version_missed'] = True
             if prev: meta['first_version_run'] = prev
-        meta['checks_run'] = {'command': f'git -C /repo apply patch.diff; ./verif.sh {pid} quick; git -C /repo checkout -- .',
+        ran = re.findall(r'\(retest ([^)]*)\)', lines[0])
+        checks = ran[0].strip() if ran else pid
+        meta['checks_run'] = {'command': f'git -C /repo apply patch.diff; for c in {checks}: ./verif.sh $c quick; git -C /repo checkout -- .',
                               'violations_reported_for': detected, 'signatures': sigs, 'detected': pid in detected, 'detected_by_other_property_check': [d for d in detected if d != pid]}
         json.dump(meta, open(f'{dst}/meta.json','w'), indent=1)
         print(pid, n, 'confirmed' if ok else 'NOT-CONFIRMED', 'detected' if pid in detected else ('MISSED (other: %s)' % detected), sigs[:3], 'RETEST' if retest else '')
